@@ -16,7 +16,7 @@
 (* the end-to-end prover raised on a tautology.                                                       *)
 EXTENDS C15_Prop, TraceLib
 
-MaxAtoms == 14
+MaxAtoms == 12
 AllWF(e) == WellFormed(e.concl) /\ \A i \in 1..Len(e.hyps) : WellFormed(e.hyps[i])
 Examinable(e) == AllWF(e) /\ Cardinality(SeqAtoms(e.hyps, e.concl)) <= MaxAtoms
 SameSequent(e) == e.chk.concl = e.concl /\ { e.chk.hyps[i] : i \in 1..Len(e.chk.hyps) } = { e.hyps[i] : i \in 1..Len(e.hyps) }
